@@ -15,6 +15,37 @@ from .core import Violation
 CONFIGS = [("mem", True), ("mem", False), ("csv", True), ("csv", False)]
 
 
+CLOCK = gen.T0 + timedelta(days=200, seconds=7, microseconds=123456)  # "now" for histories: later than some pool times, earlier than others
+
+
+class frozen_clock:
+    """The harness owns the clock: while a history runs, `datetime.now()` inside tinyflux.database returns CLOCK, so that the
+    time stamped on points inserted without one is known to the model.  isinstance checks against the rebound name keep working."""
+
+    def __enter__(self):
+        import datetime as _dt
+
+        import tinyflux.database as D
+
+        real = _dt.datetime
+
+        class _Meta(type):
+            def __instancecheck__(cls, obj):
+                return isinstance(obj, real)
+
+        class FrozenDatetime(real, metaclass=_Meta):
+            @classmethod
+            def now(cls, tz=None):
+                return CLOCK if tz is None else CLOCK.astimezone(tz)
+
+        self._D, self._old = D, D.datetime
+        D.datetime = FrozenDatetime
+        return self
+
+    def __exit__(self, *a):
+        self._D.datetime = self._old
+
+
 class CallableRaised(Exception):
     """Raised on purpose by generated user callables."""
 
@@ -219,16 +250,23 @@ class Lockstep:
     def check_contents(self, what="contents", through_api=False, passive_only=False):
         exp = self.model.points
         for real in self.reals:
-            if passive_only and not real.passive():
-                continue
+            if not through_api and not real.passive():
+                # this configuration can only be observed by reading through the API, which disturbs it (flushes buffers):
+                # do so on every third step only, so that runs of consecutive operations execute unobserved
+                if passive_only or len(self.log) % 3 != 0:
+                    continue
             got = self.call(real, what, real.contents if through_api else real.observe)
             if got != exp:
                 self.fail(what, real, "all(sorted=False) differs from the model: got %d points %s, expected %d points %s" % (len(got), brief(got), len(exp), brief(exp)))
         self.ctx.acc.ev(len(self.reals))
 
-    READS = ("probe", "probe_hit", "getters")
+    READS = ("probe", "probe_hit", "probe_twin", "getters")
 
     def run(self, ops):
+        with frozen_clock():
+            self._run(ops)
+
+    def _run(self, ops):
         for r in self.reals:
             r.exit_via_context = len(ops) % 2 == 1  # half of the histories close their databases through the context-manager exit
         try:
@@ -288,6 +326,45 @@ class Lockstep:
         self.model.insert(mp, meas)
         self.flags.add("insert")
 
+    def op_insert_stamped(self, mp, n, via, bad_after=False):
+        """Insert n points that carry no time (bare Point() with attributes assigned): they must be stamped with the insertion time
+        (the frozen CLOCK).  bad_after: a non-Point follows them in the same insert_multiple call, which must raise after storing them."""
+        from tinyflux import Point
+
+        meas = None if via == "db" else mp["measurement"]
+        for real in self.reals:
+            items = []
+            for i in range(n):
+                p = Point()
+                p.measurement = mp["measurement"]
+                p.tags = dict(mp["tags"], n=str(i))
+                p.fields = dict(mp["fields"])
+                items.append(p)
+            if bad_after:
+                items.append("not a point")
+            target = real.handle(meas, False) if via == "handle" else real.db
+            kw = {} if via in ("db", "handle") else {"measurement": meas}
+            if n == 1 and not bad_after:
+                r = self.call(real, "insert", target.insert, items[0], **kw)
+                if r != 1:
+                    self.fail("insert-return", real, "insert returned %r" % (r,))
+            elif bad_after:
+                self.expect_raise(real, "insert_multiple-bad", lambda: target.insert_multiple(items, **kw), (TypeError,))
+            else:
+                r = self.call(real, "insert_multiple", target.insert_multiple, items, **kw)
+                if r != n:
+                    self.fail("insert_multiple-return", real, "returned %r for %d points" % (r, n))
+        if self.model.points and CLOCK < max(p["time"] for p in self.model.points):
+            self.flags.add("out_of_order")
+            self.flags.add("stamped_before_future_point")
+        for i in range(n):
+            self.model.insert({"time": CLOCK, "measurement": mp["measurement"], "tags": dict(mp["tags"], n=str(i)), "fields": dict(mp["fields"])}, meas)
+        if bad_after:
+            self.flags.add("raised")
+            self.flags.add("raised_mid")
+        self.flags.add("insert")
+        self.ctx.acc.cls("insert_stamped")
+
     def op_insert_multiple(self, mps, tz, mode, via, bad_at=None, meas=None):
         """mode: 'inorder' (sorted & clamped), 'asis'. bad_at: position of a non-Point inside the iterable."""
         mps = [copy.deepcopy(m) for m in mps]
@@ -332,7 +409,7 @@ class Lockstep:
         for real in self.reals:
             served = "idx" if real.db.index.valid else "scan"
             bq = qast.build(q)
-            pre = file_bytes(real) if exp == 0 else None
+            pre = file_bytes(real) if exp == 0 and real.passive() else None  # (with flush_on_insert=False a read may legitimately flush buffered rows)
             if via in ("handle", "old_handle") and m is not None:
                 r = self.call(real, "remove", real.handle(m, via == "old_handle").remove, bq)
             elif m is None:
@@ -540,6 +617,11 @@ class Lockstep:
         if m == "<own>":
             return self.model.points[spec[0] % len(self.model.points)]["measurement"] if self.model.points else None
         return m
+
+    def op_probe_twin(self, q, q2, m, keys, via):
+        """Two probes back to back, the second a near-miss variant of the first (a result cache keyed too coarsely would answer it from the first)."""
+        self.op_probe(q, m, keys, via)
+        return self.op_probe(q2, m, keys, via)
 
     def op_probe_hit(self, spec, q2, m, keys, via):
         return self.op_probe(self.resolve_hit(spec, q2), self._m_of_hit(spec, m), keys, via)
